@@ -6,6 +6,7 @@ package main
 import (
 	"fmt"
 	"go/types"
+	"os"
 	"strconv"
 	"strings"
 
@@ -260,6 +261,9 @@ func mFmtString(in *Interp, fn *ssa.Function, args []Value) Value {
 // becomes the opaque fragment "<?>" (a property that depends on such text is
 // caught by the native replay as an engine mismatch, never passed).
 func (in *Interp) sprintf(format string, args []Value) StrV {
+	if os.Getenv("SYMGO_ERRTRACE") != "" {
+		fmt.Fprintf(os.Stderr, "ERRTRACE sprintf(%q) at %s\n", format, in.where())
+	}
 	var out []*Term
 	lit := func(s string) {
 		out = append(out, in.strConst(s).b...)
@@ -287,12 +291,14 @@ func (in *Interp) sprintf(format string, args []Value) StrV {
 		}
 		a := args[ai]
 		ai++
+		var dynT types.Type
 		if iv, ok := a.(IfaceV); ok {
 			a = iv.v
 			if iv.t == nil {
 				lit("<nil>")
 				continue
 			}
+			dynT = iv.t
 		}
 		switch x := a.(type) {
 		case StrV:
@@ -315,6 +321,17 @@ func (in *Interp) sprintf(format string, args []Value) StrV {
 			}
 			if x.w == 0 {
 				lit(strconv.FormatBool(x.val != 0))
+			} else if bt, ok := underlyingBasic(dynT); ok && bt.Info()&types.IsInteger != 0 {
+				// a concrete integer whose dynamic type says whether it is signed
+				if bt.Info()&types.IsUnsigned != 0 {
+					lit(strconv.FormatUint(x.val&mask(x.w), 10))
+				} else {
+					v := x.val & mask(x.w)
+					if x.w < 64 && v&(1<<uint(x.w-1)) != 0 {
+						v |= ^mask(x.w)
+					}
+					lit(strconv.FormatInt(int64(v), 10))
+				}
 			} else {
 				lit("<?>") // signedness is not known here
 			}
@@ -330,6 +347,9 @@ func mNop(in *Interp, fn *ssa.Function, args []Value) Value { return in.zeroResu
 func mErrorf(in *Interp, fn *ssa.Function, args []Value) Value {
 	format, _ := args[0].(StrV).Conc()
 	va := variadicArgs(in, args[1])
+	if os.Getenv("SYMGO_ERRTRACE") != "" {
+		fmt.Fprintf(os.Stderr, "ERRTRACE fmt.Errorf(%q) at %s\n", format, in.where())
+	}
 	if strings.Contains(format, "%w") {
 		for _, a := range va {
 			if ev, ok := in.isErrorIface(a); ok {
@@ -764,4 +784,12 @@ func (in *Interp) render(v Value) string {
 		return "{" + strings.Join(parts, " ") + "}"
 	}
 	return describe(v)
+}
+
+func underlyingBasic(t types.Type) (*types.Basic, bool) {
+	if t == nil {
+		return nil, false
+	}
+	b, ok := t.Underlying().(*types.Basic)
+	return b, ok
 }
